@@ -5,28 +5,32 @@ import BM.Proofs.RecCheck
 import BM.Proofs.RegexLemmas
 /-
   Bytes that matter to C18 and the string functions of css/handlers.go: the four *hostile* bytes
-  (backslash, `<`, `>`, `@`) survive `strings.ToLower`, `strings.TrimSpace`, `strings.Split`,
+  (backslash, `<`, `>`, `@`, `;`, `{`, `}`) survive `strings.ToLower`, `strings.TrimSpace`, `strings.Split`,
   `multiSplit` and `splitValues` — so a list of pieces without hostile bytes comes from a value
   without hostile bytes — and show up as runes of their own when a string is decoded for a regexp.
 -/
 namespace BM
 
-def hostile (c : UInt8) : Bool := c == 92 || c == 60 || c == 62 || c == 64
+def hostile (c : UInt8) : Bool := c == 92 || c == 60 || c == 62 || c == 64 || c == 59 || c == 123 || c == 125
 
-/-- no backslash, angle bracket or at-sign -/
+/-- no backslash, angle bracket, at-sign, semicolon or brace -/
 def Clean (s : Bytes) : Prop := ∀ c ∈ s, hostile c = false
 def CleanL (l : List Bytes) : Prop := ∀ s ∈ l, Clean s
 
-theorem hostile_cases {c : UInt8} (h : hostile c = true) : c = 92 ∨ c = 60 ∨ c = 62 ∨ c = 64 := by
+theorem hostile_cases {c : UInt8} (h : hostile c = true) :
+    c = 92 ∨ c = 60 ∨ c = 62 ∨ c = 64 ∨ c = 59 ∨ c = 123 ∨ c = 125 := by
   simp only [hostile, Bool.or_eq_true, beq_iff_eq] at h
-  rcases h with ((h | h) | h) | h
+  rcases h with (((((h | h) | h) | h) | h) | h) | h
   · exact .inl h
   · exact .inr (.inl h)
   · exact .inr (.inr (.inl h))
-  · exact .inr (.inr (.inr h))
+  · exact .inr (.inr (.inr (.inl h)))
+  · exact .inr (.inr (.inr (.inr (.inl h))))
+  · exact .inr (.inr (.inr (.inr (.inr (.inl h)))))
+  · exact .inr (.inr (.inr (.inr (.inr (.inr h)))))
 
 theorem hostile_ascii {c : UInt8} (h : hostile c = true) : c.toNat < 0x80 := by
-  rcases hostile_cases h with h | h | h | h <;> subst h <;> decide
+  rcases hostile_cases h with h | h | h | h | h | h | h <;> subst h <;> decide
 
 theorem clean_append {a b : Bytes} : Clean (a ++ b) ↔ Clean a ∧ Clean b := by
   unfold Clean
@@ -94,13 +98,13 @@ theorem ascii_mem_decodeRunes (s : Bytes) (b : UInt8) (hb : b ∈ s) (h : b.toNa
 /-! ### strings.ToLower -/
 
 theorem hostile_not_upper {c : UInt8} (h : hostile c = true) : lowerByte c = c := by
-  rcases hostile_cases h with h | h | h | h <;> subst h <;> decide
+  rcases hostile_cases h with h | h | h | h | h | h | h <;> subst h <;> decide
 
 theorem runeToLower_hostile {c : UInt8} (h : hostile c = true) : runeToLower c.toNat = c.toNat := by
-  rcases hostile_cases h with h | h | h | h <;> subst h <;> decide
+  rcases hostile_cases h with h | h | h | h | h | h | h <;> subst h <;> decide
 
 theorem encodeRune_hostile {c : UInt8} (h : hostile c = true) : encodeRune c.toNat = [c] := by
-  rcases hostile_cases h with h | h | h | h <;> subst h <;> decide
+  rcases hostile_cases h with h | h | h | h | h | h | h <;> subst h <;> decide
 
 theorem toLowerGo_keeps (s : Bytes) (c : UInt8) (hc : c ∈ s) (h : hostile c = true) : c ∈ toLowerGo s := by
   unfold toLowerGo
@@ -116,9 +120,9 @@ theorem toLowerGo_keeps (s : Bytes) (c : UInt8) (hc : c ∈ s) (h : hostile c = 
 /-! ### strings.TrimSpace -/
 
 theorem hostile_not_space {c : UInt8} (h : hostile c = true) : Css.isUniSpace c.toNat = false := by
-  have hn : c.toNat = 92 ∨ c.toNat = 60 ∨ c.toNat = 62 ∨ c.toNat = 64 := by
-    rcases hostile_cases h with h | h | h | h <;> subst h <;> simp
-  rcases hn with h | h | h | h <;> rw [h] <;> simp [Css.isUniSpace]
+  have hn : c.toNat = 92 ∨ c.toNat = 60 ∨ c.toNat = 62 ∨ c.toNat = 64 ∨ c.toNat = 59 ∨ c.toNat = 123 ∨ c.toNat = 125 := by
+    rcases hostile_cases h with h | h | h | h | h | h | h <;> subst h <;> simp
+  rcases hn with h | h | h | h | h | h | h <;> rw [h] <;> simp [Css.isUniSpace]
 
 /-- the bytes one decoding step consumes, when the rune is a space, hold no hostile byte -/
 theorem space_step_clean (b0 : UInt8) (rest : Bytes) (hsp : Css.isUniSpace (decodeRune (b0 :: rest)).1 = true) :
@@ -333,18 +337,21 @@ theorem cleanL_of_inList (a b : List Bytes) (h : inList a b = true) (hb : CleanL
 
 /-- a regexp whose matches are over an alphabet without the hostile bytes accepts clean strings only -/
 theorem clean_of_match (r : Re) (A : List (Rune × Rune)) (hcl : ∀ s : Bytes, Re.matchBytes r s = true → ∀ c ∈ decodeRunes s, Re.inRanges c A = true)
-    (hA : ∀ c ∈ [92, 60, 62, 64], Re.inRanges c A = false) (s : Bytes) (h : Re.matchBytes r s = true) : Clean s := by
+    (hA : ∀ c ∈ [92, 60, 62, 64, 59, 123, 125], Re.inRanges c A = false) (s : Bytes) (h : Re.matchBytes r s = true) : Clean s := by
   intro c hc
   cases hh : hostile c with
   | false => rfl
   | true =>
     have h1 := hcl s h c.toNat (ascii_mem_decodeRunes s c hc (hostile_ascii hh))
     have h2 : Re.inRanges c.toNat A = false := by
-      rcases hostile_cases hh with h | h | h | h <;> subst h
+      rcases hostile_cases hh with h | h | h | h | h | h | h <;> subst h
       · exact hA 92 (by simp)
       · exact hA 60 (by simp)
       · exact hA 62 (by simp)
       · exact hA 64 (by simp)
+      · exact hA 59 (by simp)
+      · exact hA 123 (by simp)
+      · exact hA 125 (by simp)
     rw [h2] at h1; cases h1
 
 theorem mem_joinBytes (sep : Bytes) : ∀ (g : List Bytes) (x : Bytes), x ∈ g → ∀ c ∈ x, c ∈ joinBytes sep g
